@@ -203,7 +203,7 @@ func c20Mistyped(c *mon.Ctx, class string, tok []byte) {
 }
 
 func runC20(c *mon.Ctx) {
-	c.Rule("envelopes assembled by the harness's own CBOR encoder around real signed tokens (7 algorithms, both profiles + extension): every tag 0..30 / 61 / 96 / 97 / 98 / none / nested / non-minimal; array lengths 0..6; each of the four elements replaced by every CBOR kind (uint, nint, bstr, empty bstr, tstr, array, map, tag, false, true, null, undefined, float); payload := a claims map of either profile in which one known claim (or a component / component field) carries a value of an undecodable type (27 kinds, incl. the EAT profile key 265 of a non-text type on tokens of either profile and component lists holding null / undefined entries); every tag number 0..300; payload content := int / tstr / array / null / undefined / true / float / bstr(map) / bstr(bstr(map)) / tagged map / map+trailing / empty / truncated map / indefinite map; 1-8 trailing bytes; COSE_Sign, COSE_Mac0, COSE_Mac, COSE_Encrypt0 layouts under their own tag and under tag 18; the four TF-M vectors (both *_mac0.bin must be rejected, both *_sign1.bin accepted); random AST mutations. tag numbers whose low-order bytes are 18 (0x112, 0x1212, 2^16+18, 2^32+18 ...) in every argument width. Every envelope is judged by DecodeEvidenceFromCOSE, by UnmarshalCOSE on a fresh Evidence, on an Evidence with claims already attached, and on an Evidence that decoded a good token before - all four must agree. Oracle: a nil error from DecodeEvidenceFromCOSE / Evidence.UnmarshalCOSE requires that the independent reader sees tag 18 -> array of exactly 4 -> [bstr, map, bstr, non-empty bstr], nothing after it, and a payload whose content is exactly one CBOR map that decodes as claims (tagged map = NO-VERDICT); both entry points must agree; an accepted Evidence must hold (hook H2) exactly the token's parts; unmodified tokens must be accepted (positive control). distinct_nontrivial = distinct (class, variant) signatures")
+	c.Rule("envelopes assembled by the harness's own CBOR encoder around real signed tokens (7 algorithms, both profiles + extension): every tag 0..30 / 61 / 96 / 97 / 98 / none / nested / non-minimal; array lengths 0..6; each of the four elements replaced by every CBOR kind (uint, nint, bstr, empty bstr, tstr, array, map, tag, false, true, null, undefined, float); payload := a claims map of either profile in which one known claim (or a component / component field) carries a value of an undecodable type (27 kinds, incl. the EAT profile key 265 of a non-text type on tokens of either profile and component lists holding null / undefined entries); every tag number 0..300; payload content := int / tstr / array / null / undefined / true / float / bstr(map) / bstr(bstr(map)) / tagged map / map+trailing / empty / truncated map / indefinite map; null / undefined behind tags of every argument width (8-byte tag numbers with leading octets 00, 80, a0, a1, b8, bf); the non-map payloads again under protected headers carrying CWT claims (label 15) that name a registered profile, a content type, a key id; 1-8 trailing bytes; COSE_Sign, COSE_Mac0, COSE_Mac, COSE_Encrypt0 layouts under their own tag and under tag 18; the four TF-M vectors (both *_mac0.bin must be rejected, both *_sign1.bin accepted); random AST mutations. tag numbers whose low-order bytes are 18 (0x112, 0x1212, 2^16+18, 2^32+18 ...) in every argument width. Every envelope is judged by DecodeEvidenceFromCOSE, by UnmarshalCOSE on a fresh Evidence, on an Evidence with claims already attached, and on an Evidence that decoded a good token before - all four must agree. Oracle: a nil error from DecodeEvidenceFromCOSE / Evidence.UnmarshalCOSE requires that the independent reader sees tag 18 -> array of exactly 4 -> [bstr, map, bstr, non-empty bstr], nothing after it, and a payload whose content is exactly one CBOR map that decodes as claims (tagged map = NO-VERDICT); both entry points must agree; an accepted Evidence must hold (hook H2) exactly the token's parts; unmodified tokens must be accepted (positive control). distinct_nontrivial = distinct (class, variant) signatures")
 	if err := extprof.Register(extprof.ExtP2Name); err != nil {
 		c.Violation("harness/register", err.Error(), nil)
 		return
@@ -374,9 +374,52 @@ func runC20(c *mon.Ctx) {
 			{"indefinite-map", refcbor.Encode(claimsMap.AsIndef())}, {"empty-map", []byte{0xa0}},
 			{"the-whole-token", st.tok},
 		}
+		// null / undefined behind tags of every argument width, 8-byte tag numbers
+		// whose leading octet looks like a map head included
+		for _, inner := range []*refcbor.Node{refcbor.Null(), refcbor.Undef()} {
+			for _, w := range []int{0, 1, 2, 4, 8} {
+				for _, lead := range []uint64{0x00, 0x80, 0xa0, 0xa1, 0xbf, 0xb8} {
+					tn := uint64(1000 + g.R.Intn(1000))
+					if w == 8 {
+						tn = lead<<56 | uint64(g.R.Intn(1<<20))
+					} else if lead != 0 {
+						continue
+					}
+					if w == 0 {
+						tn = uint64(6 + g.R.Intn(17)) // immediate tag numbers 6..22
+					}
+					tg := refcbor.Tagged(tn, inner)
+					if w > 1 || w == 1 {
+						tg = tg.WithArgW(w)
+					}
+					pv = append(pv, struct {
+						name string
+						b    []byte
+					}{fmt.Sprintf("tag-width%d-lead%02x(%s)", w, lead, inner.Diag()), refcbor.Encode(tg)})
+				}
+			}
+		}
 		for _, v := range pv {
 			c20Judge(c, "payload:"+v.name, envelopeBytes(18, P(), U(), refcbor.Bstr(v.b), S()), false)
 			sig("payload|" + v.name)
+		}
+		// the same non-claims payloads under protected headers that carry more than
+		// the algorithm: CWT claims (label 15) naming a registered profile, content
+		// type, key id - nothing in a header makes a non-map payload a claims-set
+		{
+			algv := refcbor.I(coseAlgID[st.key.Name])
+			hdrs := []*refcbor.Node{
+				refcbor.MapOf(refcbor.I(1), algv, refcbor.I(15), refcbor.MapOf(refcbor.I(265), refcbor.Tstr(model.P2Name))),
+				refcbor.MapOf(refcbor.I(1), algv, refcbor.I(15), refcbor.MapOf(refcbor.I(265), refcbor.Tstr(model.P1Name))),
+				refcbor.MapOf(refcbor.I(1), algv, refcbor.I(15), refcbor.MapOf(refcbor.I(265), refcbor.Tstr(extprof.ExtP2Name), refcbor.I(1), refcbor.Tstr("issuer"))),
+				refcbor.MapOf(refcbor.I(1), algv, refcbor.I(3), refcbor.Tstr("application/eat-cwt"), refcbor.I(4), refcbor.Bstr([]byte("kid"))),
+			}
+			for hi, hd := range hdrs {
+				for _, v := range pv[:12] {
+					c20Judge(c, fmt.Sprintf("header-variant-%d+payload:%s", hi, v.name), envelopeBytes(18, refcbor.Bstr(refcbor.Encode(hd)), U(), refcbor.Bstr(v.b), S()), false)
+				}
+				sig(fmt.Sprintf("header-variant|%d", hi))
+			}
 		}
 		// payload = a MAP that cannot be a claims-set: a known claim of either
 		// profile carries a value of a type that cannot be decoded into it
